@@ -120,3 +120,12 @@ Print Assumptions C08_reply_never_lost.
 Print Assumptions C08_message_any_split.
 Print Assumptions C08_id_advances_always.
 Print Assumptions C08_late_reply_kept.
+
+(* THE TIE BY TRANSLATION for the reply store: storeMessage / getMessage as the source has them on
+   this run file a reply under its message-id itself and hand a call — removing it — exactly what is
+   filed under ITS id, both under the messages lock (the model keeps replies in a map keyed by
+   message-id). *)
+From Scrapli Require Import DecideLang GeneratedSkel NcStoreSrc.
+Theorem C08_store_is_source : nc_store_ok = true.
+Proof. exact nc_store_is_source. Qed.
+Print Assumptions C08_store_is_source.
